@@ -17,7 +17,7 @@ EXPLANATION = ('(R19.1) at every Ok exit of every lookup-like API (plain, sharde
                'successful seek(Start(0)) in between; (R19.3) the finalizer chmods the temp file through its handle to the constant '
                '0o444 before any Ok exit, every insert of a temp file by the stacked cache is dominated by that chmod:Ok, and the '
                'publish bodies set readonly=true before publishing (C03 R03.4). umask handling inside the kernel is not decided.')
-FLOORS = {'R19.1': 7, 'R19.2': 14, 'R19.3': 6}
+FLOORS = {'R19.1': 7, 'R19.2': 14, 'R19.3': 6, 'R19.4': 3}
 
 
 def r19_1(ctx):
@@ -56,6 +56,31 @@ def r19_1(ctx):
                 bad.append(t)
         out.append(inst('R19.1', name, n > 0 and not bad, 'returned handles come from lookups / read-only opens / the anonymous miss file (%d exits)' % n if n and not bad else
                         'a returned handle has another origin: %s' % (show(q.g.term[bad[0]]['val'], 4)[:120] if bad else 'no exit')))
+    return out
+
+
+def r19_4(ctx):
+    """the lower layer hands out its handle untouched: between the open and the hit exit of the cache-directory /
+    plain / sharded lookup nothing reads from, seeks on, or reads through a duplicate (dup shares the file offset) of
+    the handle that is returned -- unless it is rewound afterwards."""
+    out = []
+    m = ctx.cachedir_methods()
+    lower = [('cachedir.get', m['get']), ('plain::Cache::get', ctx.key_of('plain::Cache::get')), ('sharded::Cache::get', ctx.key_of('sharded::Cache::get'))]
+    for name, k in lower:
+        q = ctx.explore(k)
+        hits = q.terminals(lambda ev: ev['k'] == 'ret' and ev.get('variant') == 'Ok' and ev.get('variant2') == 'Some')
+        by_root = {}
+        for t in hits:
+            by_root.setdefault(obj_handle_root(q.g.term[t]['payload2'][0]), []).append(t)
+        bad_all = []
+        for root, ts in by_root.items():
+            bad, D, S = unrewound(ctx, q, root, ts)
+            if bad:
+                bad_all.append(bad[0])
+        out.append(inst('R19.4', name, bool(hits) and not bad_all,
+                        'the returned handle is never read from, seeked, or read through a duplicate before the hit exit (%d exits)' % len(hits) if hits and not bad_all else
+                        ('the handle is consumed at %s (directly or through a dup, which shares the offset) and returned without a rewind' % q.E[bad_all[0]][2]['site'][2]) if bad_all else 'no hit exit',
+                        path=witness_path(q, bad_all[0]) if bad_all else []))
     return out
 
 
@@ -152,7 +177,7 @@ def r19_3(ctx):
 
 def run(ctx):
     from runner import collect
-    return collect(ctx, r19_1, r19_2, r19_3)
+    return collect(ctx, r19_1, r19_2, r19_3, r19_4)
 
 
 THOROUGH_FLOORS = {'E19.2': 8}
